@@ -12,7 +12,7 @@ SYMS = ['BTC-USDT', 'ETH-USDT']
 def session(draw, minutes=(60, 200), kinds=('futures', 'spot'), tfs=('1m', '3m', '5m', '15m'), data_tfs=('3m', '5m', '15m', '30m', '1h'),
             max_symbols=2, max_data=2, warmup=(False, True), fast=(False, True), modes=('cross',), leverages=(1, 2, 5, 10, 25),
             fees=(0.0, 0.0004, 0.001, 0.0075), structural=True, program=None, same_tf=False, align_len=False, min_steps=8, min_symbols=1,
-            data_only_symbol=False, candle_opts=None):
+            data_only_symbol=False, candle_opts=None, logs=(False,)):
     kind = draw(st.sampled_from(kinds))
     futures = kind == 'futures'
     nsym = draw(st.integers(min_symbols, max_symbols))
@@ -74,5 +74,5 @@ def session(draw, minutes=(60, 200), kinds=('futures', 'spot'), tfs=('1m', '3m',
                 start_ticks = round(cands[s][0][1] / ticks[s])
                 warm[s] = gc.warmup_rows(draw(st.integers(0, 2 ** 16)), wn, ticks[s], start_ticks)
     return dict(cfg=cfg, routes=routes, data=data, candles=cands, warmup=warm, scripts=scripts,
-                fast=draw(st.sampled_from(fast)), n=n, ticks=ticks)
+                fast=draw(st.sampled_from(fast)), n=n, ticks=ticks, logs=draw(st.sampled_from(logs)))
 
